@@ -607,7 +607,13 @@ def run(ctx: core.Ctx):
         "one-step replay: model.step is applied to the REAL parameters of iteration i, so floating-point differences do not accumulate (tolerance 1e-9 relative)",
         "level conditions (equality, levenshtein, abs difference, IS NULL) and term frequencies are computed by the harness itself",
     ]
+    from harness.translate import tarith
+
+    errs = tarith.write({"prob_to_bayes_factor", "bayes_factor_to_prob"})  # C03.start_prior_translated is about the translated helpers
     ctx.lean = core.lean_check(PROP, ctx.thorough)
+    if errs:
+        ctx.lean.ok = False
+        ctx.lean.problems += ["T-arith: " + e for e in errs]
     drv = core.Driver()
     if ctx.replay:
         cases = [json.loads(open(ctx.replay).read())["replay"]["case"]]
